@@ -27,10 +27,10 @@ func init() {
 type c07Witness struct {
 	App    string   `json:"app"`
 	Cfg    int      `json:"config_variant"`
-	Inputs []string `json:"inputs"`
+	Inputs qstrs    `json:"inputs"`
 }
 
-var c07Junk = []string{"", "zz", strings.Repeat("a", 256)}
+var c07Junk = []string{"", "zz", strings.Repeat("a", 256), "a\xff\xfe"}
 
 type c07Twin struct {
 	name string
